@@ -121,7 +121,7 @@ def main(argv=None):
             kb = kn.bucket_of(fid)
             if kb is None:
                 notes.append(f"replay {os.path.basename(p)} refers to unlisted finding {fid}")
-            elif kb in got:
+            elif kb & got:
                 known_seen.add(fid)
             else:
                 notes.append(f"known finding {fid} no longer reproduces from {os.path.basename(p)}")
